@@ -18,6 +18,12 @@ CHECKS = {
     "C05": dict(level="other", technique="deductive frame conditions decided by a flow-sensitive inter-procedural ownership typing over the real AST (no write through a cache-reachable reference, no identity comparison across caches); bounded history runs of every rule and format_code",
                 text="Every write site of the package is proved to have a receiver created in the function (or passed in fresh by every caller), and identity-based tests never mix objects of different caches - for all inputs and histories; the meta-argument from these frame conditions to history independence is stated, and the end-to-end claim is bounded (double runs, cache eviction, fresh process, shuffled histories on the corpus).",
                 note="trusted: the ownership rules (stated, not mechanised), footprint models of copy/ast helpers/containers; cached functions assumed pure except cwd / import tracing", ref="5/C05"),
+    "C07": dict(level="other", technique="deductive reaching-definition / table obligations on the safe-mode preserve set and its flow (real AST of format_code, _multi_run_fixes), guarded-effect obligations (pyvc, lenient) on the deleting and renaming rules, has_side_effect branches; bounded surface comparison of format_code(safe=True)",
+                text="What the safe set contains, that it alone reaches every rule with a preserve argument, and that delete_unused_functions_and_classes / align_variable_names_with_convention delete or rename only unpreserved names are proved for all modules and preserve sets; the other deleting/renaming rules and the whole pipeline are bounded (surface of corpus and generated modules before/after).",
+                note="trusted: z3, pyvc executor (lenient), AST extractors; names made of underscores exempt by the tool's convention; unguarded rules bounded only", ref="5/C07"),
+    "C08": dict(level="other", technique="deductive guarded-effect obligations for all preserve sets and preserve-forwarding dataflow obligations; bounded library/client pairs through format_code(preserve=) and the command line",
+                text="The name-level guards of the deleting and renaming rules and the unchanged flow of the preserve set to them are proved for every preserve set; the collection of names used by preserved files, the per-file preserve computation of format_files and the unguarded rules are bounded (generated clients run before and after formatting the library).",
+                note="trusted: z3, pyvc executor (lenient); format_files' preserve computation and _used_names_in_file bounded only", ref="5/C08"),
     "C10": dict(level="other", technique="deductive contracts (pyvc: ast->VC, z3/cvc5) on Range.overlaps, the conflict step/loop/final sort of _schedule_rewrites, _apply_rewrites, fix, chain; bounded marker-token drive of the real fix/chain for the textual splice",
                 text="Scheduler kernel proved for all rewrite lists of any length (all-or-nothing, never-overlap, dropped-only-if, precedence order, descending application order, valid-or-unchanged); the difflib-based splice and the end-to-end reading on output text are bounded (enumerated conflict configurations).",
                 note="trusted: z3/cvc5, the pyvc executor's model of Python (DESIGN 1.2), sorted()/set-comprehension models, ast.parse as validity; _do_rewrite only bounded", ref="5/C10"),
